@@ -79,7 +79,13 @@ Atoms == { A1, Rel(<<Step("child", T_name("", <<"t","e","x","t">>))>>), Abs(<<>>
            \* (E)//P is (E)/descendant-or-self::node()/P also directly after a filter expression: (/a)//a, $v//text, (a|a)[1]//*
            Filter(Abs(<<Step("child", T_name("", <<"a">>))>>), <<>>, <<DoS, Step("child", T_name("", <<"a">>))>>),
            Filter(Var("", <<"v">>), <<>>, <<DoS, Step("child", T_text)>>),
-           Filter(Bin("union", A1, A1), <<IntE(1)>>, <<DoS, Step("child", T_any)>>) }
+           Filter(Bin("union", A1, A1), <<IntE(1)>>, <<DoS, Step("child", T_any)>>),
+           \* .. is parent::node() also from context nodes of different depths whose parents interleave: //text()/.., //*/.., count(//node()/..)
+           Abs(<<DoS, Step("child", T_text), Step("parent", T_node)>>), Abs(<<DoS, Step("child", T_any), Step("parent", T_node)>>),
+           Call(<<"c","o","u","n","t">>, <<Abs(<<DoS, Step("child", T_node), Step("parent", T_node)>>)>>),
+           Abs(<<DoS, Step("child", T_node), Step("parent", T_node), Step("parent", T_node)>>),
+           \* brackets inside a literal are characters of the literal
+           Lit(<<"(">>), Lit(<<"]">>), Lit(<<"[", "(", ":", ")">>), Call(<<"c","o","n","t","a","i","n","s">>, <<Rel(<<Self>>), Lit(<<")">>)>>) }
 BinOps == {"or", "and", "eq", "ne", "lt", "le", "gt", "ge", "add", "sub", "mul", "div", "mod", "union"}
 UnionOK(e) == e.op \in {"path", "filter", "var", "call", "union"}
 Depth1 == Atoms \cup {NegE(x) : x \in Atoms} \cup {Bin(o, x, y) : o \in BinOps, x \in {A1, IntE(1), Var("", <<"v">>)}, y \in {A1, IntE(1), Var("", <<"v">>)}}
